@@ -480,7 +480,10 @@ pub fn install_panic_hook() {
         };
         let th = std::thread::current().name().unwrap_or("?").to_string();
         let line = format!("panic thread={} at {} : {}", th, loc, msg);
-        if !PANIC_QUIET.load(Ordering::Relaxed) || !info.can_unwind() {
+        // quiet mode still shows the first few: a panic that cannot unwind aborts the process and
+        // the only trace of it is what reached stderr
+        static SHOWN: AtomicU64 = AtomicU64::new(0);
+        if !PANIC_QUIET.load(Ordering::Relaxed) || SHOWN.fetch_add(1, Ordering::Relaxed) < 20 {
             eprintln!("{}", line);
         }
         PANIC_LOG.lock().unwrap_or_else(|e| e.into_inner()).push(line);
